@@ -10,26 +10,31 @@
    AF   : per-facet slack for balls (is_covered), and the gap bound  w_n.(mu_j - mu_i) <= AE[n]  (both in W's row scale)
    EpsA : Auer's epsilon in doubled units     Iso  : Auer / PaVeBa display one common width (radius) per round      *)
 EXTENDS VOAlgo, VOGeometry
-CONSTANTS N, G, W, Fam, Kind, SD, SC, AF, AE, EpsA, Iso, RadMax
+CONSTANTS N, G, W, Fam, Kind, SD, SC, AF, AE, EpsA, Iso, RadMax, Step
+\* Step: lattice pitch. With Step = 2 every coordinate is even, so 'robust' (answer unchanged by +-1 in every facet functional)
+\* means 'not exactly on the boundary' - the configurations on which float code is unambiguous.
 
 D     == 1..N
 K     == Len(W)
-Grid  == (0..G) \X (0..G)
-Boxes == IF Fam = "auer" THEN Boxes2(G) ELSE BoxesPos2(G)           \* Auer: zero widths are displayable
-Around(p) == { b \in Boxes : Contains(b, p) }
+Axis  == { Step * x : x \in 0..G }
+Grid  == Axis \X Axis
+AllBoxes == { b \in [lo : Grid, hi : Grid] : LeqV(b.lo, b.hi) }
+Boxes == IF Fam = "auer" THEN AllBoxes ELSE { b \in AllBoxes : b.lo[1] < b.hi[1] /\ b.lo[2] < b.hi[2] }     \* Auer: zero widths are displayable
+AroundTab == TLCEval([p \in Grid |-> { b \in Boxes : Contains(b, p) }])
+Around(p) == AroundTab[p]
 Pairs == { p \in D \X D : p[1] # p[2] }
 
 \* ---- pair relation tables over Boxes x Boxes (constant-level: evaluated once and cached by TLC)
-DomTab  == [p \in Boxes \X Boxes |-> Dom(W, p[1], p[2], SD)]
-CovTab  == [p \in Boxes \X Boxes |-> LET lo == Sub(p[2].lo, p[1].hi)  hi == Sub(p[2].hi, p[1].lo)  t == WT(W, SC) IN
-              << FeasibleV(lo, hi, W, [n \in 1..K |-> t[n] - 1]), FeasibleV(lo, hi, W, t), FeasibleV(lo, hi, W, [n \in 1..K |-> t[n] + 1]) >>]
-PDomTab == [p \in Boxes \X Boxes |-> << PDomT(W, p[1], p[2], -1), PDom(W, p[1], p[2]), PDomT(W, p[1], p[2], 1) >>]
+DomTab  == TLCEval([p \in Boxes \X Boxes |-> Dom(W, p[1], p[2], SD)])
+CovTab  == TLCEval([p \in Boxes \X Boxes |-> LET lo == Sub(p[2].lo, p[1].hi)  hi == Sub(p[2].hi, p[1].lo)  t == WT(W, SC) IN
+              << FeasibleV(lo, hi, W, [n \in 1..K |-> t[n] - 1]), FeasibleV(lo, hi, W, t), FeasibleV(lo, hi, W, [n \in 1..K |-> t[n] + 1]) >>])
+PDomTab == TLCEval([p \in Boxes \X Boxes |-> << PDomT(W, p[1], p[2], -1), PDom(W, p[1], p[2]), PDomT(W, p[1], p[2], 1) >>])
 
 VARIABLES mu, S, P, U, done, reg, rad, robust, rnd
 vars == <<mu, S, P, U, done, reg, rad, robust, rnd>>
 \* reg[i] : displayed box (Kind = "box") or a degenerate box lo = hi = centre (Kind = "ball") ; rad[i] : displayed radius (balls)
 
-Whole == [lo |-> <<0,0>>, hi |-> <<G,G>>]
+Whole == [lo |-> <<0,0>>, hi |-> <<Step*G,Step*G>>]
 Init == /\ mu \in [D -> Grid] /\ S = D /\ P = {} /\ U = {} /\ done = FALSE
         /\ reg = [i \in D |-> Whole] /\ rad = [i \in D |-> 0] /\ robust = TRUE /\ rnd = 0
 
@@ -64,21 +69,23 @@ StepOf(rl) == CASE Fam = "paveba" -> PavebaStep(S, P, U, rl.a, rl.b)
 
 \* ---- one round: the environment displays valid regions for the active designs, the algorithm decides
 RegFor(i) == IF i \in Act THEN Around(mu[i]) ELSE {reg[i]}
-Centres   == ((0-RadMax)..(G+RadMax)) \X ((0-RadMax)..(G+RadMax))
+CAxis     == { Step * x : x \in (0-RadMax)..(G+RadMax) }
+Centres   == CAxis \X CAxis
 CenFor(i, r) == IF i \in Act THEN { [lo |-> c, hi |-> c] : c \in { c \in Centres : NormSq(Sub(c, mu[i])) <= r*r } } ELSE {reg[i]}
 Commit(rr, rd, rl) == LET x == StepOf(rl) IN
    /\ reg' = rr /\ rad' = rd /\ S' = x.S /\ P' = x.P /\ U' = x.U /\ done' = (x.S = {})
    /\ robust' = (robust /\ rl.ok) /\ rnd' = rnd + 1 /\ UNCHANGED mu
+RegForW(i, w) == IF i \in Act THEN { b \in Around(mu[i]) : (w >= 0) => B2(b) = <<w, w>> } ELSE {reg[i]}
 RoundBox ==
    /\ Kind = "box" /\ ~done
-   /\ \E r1 \in RegFor(1) : \E r2 \in RegFor(IF N >= 2 THEN 2 ELSE 1) : \E r3 \in RegFor(IF N >= 3 THEN 3 ELSE 1) :
+   /\ \E w \in (IF Iso THEN { Step * x : x \in 0..G } ELSE {0-1}) :            \* Iso: one common (square) width per round
+      \E r1 \in RegForW(1, w) : \E r2 \in (IF N >= 2 THEN RegForW(2, w) ELSE {Whole}) : \E r3 \in (IF N >= 3 THEN RegForW(3, w) ELSE {Whole}) :
         LET rr == [i \in D |-> IF i = 1 THEN r1 ELSE IF i = 2 THEN r2 ELSE r3] IN
-        /\ (Iso => \E w \in 0..G : \A i \in Act : B2(rr[i]) = <<w, w>>)
-        /\ Commit(rr, rad, IF Fam = "auer" THEN AuerRel(rr) ELSE BoxRel(rr))
+        Commit(rr, rad, IF Fam = "auer" THEN AuerRel(rr) ELSE BoxRel(rr))
 RoundBall ==
    /\ Kind = "ball" /\ ~done
-   /\ \E r \in 1..RadMax :
-      \E c1 \in CenFor(1, r) : \E c2 \in CenFor(IF N >= 2 THEN 2 ELSE 1, r) : \E c3 \in CenFor(IF N >= 3 THEN 3 ELSE 1, r) :
+   /\ \E r \in { Step * x : x \in 1..RadMax } :
+      \E c1 \in CenFor(1, r) : \E c2 \in (IF N >= 2 THEN CenFor(2, r) ELSE {Whole}) : \E c3 \in (IF N >= 3 THEN CenFor(3, r) ELSE {Whole}) :
         LET cc == [i \in D |-> IF i = 1 THEN c1 ELSE IF i = 2 THEN c2 ELSE c3]
             rd == [i \in D |-> IF i \in Act THEN r ELSE rad[i]] IN
         Commit(cc, rd, BallRel(cc, rd))
@@ -97,7 +104,9 @@ AccurateV      == done => /\ \A i \in D : Isolated(i) => i \in P
 AccuratePRobust == robust => AccurateP
 AccurateVRobust == robust => AccurateV
 Sane           == S \cap P = {} /\ U \subseteq P /\ (done => S = {})
-View           == <<mu, S, P, U, done, robust, IF done THEN 0 ELSE 1>>
+\* the future depends on the displayed regions only through the STALE regions of inactive members of P (PaVeBa family:
+\* useful_updating reads them); everything else is redrawn next round.  The view keeps exactly those.
+View           == <<mu, S, P, U, done, robust, [i \in D |-> IF i \in P \ Act /\ ~done THEN <<reg[i], rad[i]>> ELSE <<>>]>>
 ViewR          == <<mu, S, P, U, done, robust, reg, rad>>
 Bound          == rnd <= 6
 =============================================================================
